@@ -13,10 +13,21 @@ for (const line of readFileSync(casesFile, 'utf8').split('\n')) {
   const res = { id: c.id };
   try {
     if (c.kind === 'patch') {
+      const before = JSON.stringify([c.base, c.diff]);
       res.patched = patchMod.patch(c.base, c.diff);
+      // the same diff object applied again (a view re-renders): must give the same answer
+      try { res.patched2 = patchMod.patch(c.base, c.diff); } catch (e) { res.patched2_error = String(e && e.message || e).slice(0, 300); }
+      res.inputs_changed = JSON.stringify([c.base, c.diff]) !== before;
     } else if (c.kind === 'decisions') {
       const decs = c.decisions.map(d => new decMod.MergeDecision(d));
+      const before = JSON.stringify([c.base, c.decisions]);
       res.applied = decMod.applyDecisions(c.base, decs);
+      // the web merge tool applies the SAME decision objects again on every Save / Download
+      try {
+        res.applied2 = decMod.applyDecisions(c.base, decs);
+        res.applied3 = decMod.applyDecisions(c.base, decs);
+      } catch (e) { res.applied2_error = String(e && e.message || e).slice(0, 300); }
+      res.inputs_changed = JSON.stringify([c.base, c.decisions]) !== before;
       for (const which of ['local', 'remote', 'merged']) {
         try {
           const decs2 = c.decisions.map(d => new decMod.MergeDecision(d));
